@@ -59,7 +59,13 @@ def run_one(cls, bundle, base_entry, want):
     loop = fresh_loop()
     snaps = {}
     entry = [base_entry]
-    proc = cls(loop=loop) if bundle is None else bundle.unbundle(plumpy.LoadSaveContext(loop=loop))
+    extra = []
+    if bundle is None:
+        proc = cls(loop=loop)
+    else:
+        # loading must not use the checkpoint up: it is loaded twice and the SECOND instance is the one that is resumed
+        extra.append(bundle.unbundle(plumpy.LoadSaveContext(loop=loop)))
+        proc = bundle.unbundle(plumpy.LoadSaveContext(loop=loop))
     if entry[0] in want:
         snaps[entry[0]] = copy.deepcopy(plumpy.Bundle(proc))
 
@@ -77,7 +83,7 @@ def run_one(cls, bundle, base_entry, want):
                    ctx={k: v for k, v in proc.ctx.__dict__.items()}, entries=entry[0], live_entries=entry[0] - 1)
         return res, snaps
     finally:
-        cleanup(loop, [proc])
+        cleanup(loop, [proc] + extra)
 
 
 def _harness(desc, name, bools, rets, r0, r1, r2):
@@ -173,7 +179,7 @@ def shards(tier):
 
 BOUNDS = {
     'quick': dict(outlines='every 6th outline (deterministic enumeration order) with <= 4 instructions, depth <= 2, >= 2 steps and >= 1 conditional, + 6 hand-picked deeper ones',
-                  crash_points='one restore (chains of 2 for the 4 smallest outlines) at any state entry (CREATED and every RUNNING entry, i.e. every step boundary); snapshot = deep copy of Bundle taken in the ENTERED_STATE callback; each restore in a fresh event loop',
+                  crash_points='one restore (chains of 2 for the 4 smallest outlines) at any state entry (CREATED and every RUNNING entry, i.e. every step boundary); snapshot = deep copy of Bundle taken in the ENTERED_STATE callback; each restore in a fresh event loop; every checkpoint is loaded twice and the second instance resumed (loading must not consume it)',
                   values=f'{NB} symbolic predicate values, {NR} symbolic step return codes (0 None, 1 empty ToContext, else stop with that int), derived from counters persisted in ctx'),
     'thorough': dict(outlines='every 16th outline with <= 5 instructions, depth <= 2, >= 2 steps, >= 1 conditional (+ 6 hand-picked)', crash_points='chains of <= 2 restores (3 for the 8 smallest outlines)', values='as quick'),
 }
